@@ -192,6 +192,27 @@ class CallGraph:
         self.models['getattr-prefix'] = self.models.get('getattr-prefix', 0) + 1
         return out
 
+
+    def _dynamic_module_funcs(self, fn: ast.AST, f: Func) -> Optional[List[Func]]:
+        """`m.attr` where `m = import_module(f'pkg.sub.{name}')` (one assignment): the function `attr` of every module of that package."""
+        if not (isinstance(fn, ast.Attribute) and isinstance(fn.value, ast.Name)) or isinstance(f.node, ast.Lambda):
+            return None
+        vals = [n.value for n in f.walk() if isinstance(n, ast.Assign) and any(isinstance(t, ast.Name) and t.id == fn.value.id for t in n.targets)]
+        if len(vals) != 1:
+            return None
+        v = vals[0]
+        if not (isinstance(v, ast.Call) and (dotted(v.func) or '').split('.')[-1] == 'import_module' and v.args and isinstance(v.args[0], ast.JoinedStr)):
+            return None
+        parts = v.args[0].values
+        if not (parts and isinstance(parts[0], ast.Constant) and isinstance(parts[0].value, str) and parts[0].value.endswith('.')):
+            return None
+        prefix = parts[0].value
+        out = [g for g in self.repo.funcs.values() if g.cls is None and g.outer is None and g.name == fn.attr and g.mod.name.startswith(prefix) and
+               '.' not in g.mod.name[len(prefix):]]
+        if out:
+            self.models['dynamic-import'] = self.models.get('dynamic-import', 0) + 1
+        return out or None
+
     def _funcs_of_value(self, e: ast.AST, f: Func) -> List[Func]:
         """Repo functions an expression may denote (function names, bound methods with overrides, lambdas)."""
         r = self.repo
@@ -284,6 +305,7 @@ class CallGraph:
                                 if h.name not in ('__init__', '__new__', '__attrs_post_init__') and h not in out:
                                     out.append(h)
                     cal, how = self.repo.callees(v, g)
+                    cal = list(cal) + [x for x in (self._dynamic_module_funcs(v.func, g) or []) if x not in cal]
                     for c2 in cal:
                         for h in self.returned_funcs(c2, depth + 1):
                             if h not in out:
@@ -382,6 +404,9 @@ class CallGraph:
         ga = self._getattr_dispatch(fn, f)
         if ga is not None:
             return Site(call, f, ga, 'model:getattr')
+        dm = self._dynamic_module_funcs(fn, f)
+        if dm is not None:
+            return Site(call, f, dm, 'model:dynamic-import')
         if isinstance(fn, ast.Name):
             # local callable variable
             # by-name models
